@@ -40,8 +40,13 @@ Proof. exact simplify_error. Qed.
 Print Assumptions C07_error.
 
 Theorem C07_errors_only : forall O ts ctx e, poly_simplify O ts ctx = inr e ->
-  e = ValueErr \/ e = OracleMiss \/ e = Escape "unmodelled: constraint without variables".
+  e = ValueErr \/ e = OracleMiss \/ e = Escape "AssertionError".
 Proof. exact simplify_errors_only. Qed.
+Print Assumptions C07_errors_only.
+(* ... and on well-formed lists (every term mentions a variable) no assertion can fail *)
+Theorem C07_errors_only_wf : forall O ts ctx e, wfl ts -> wfl (opt_list ctx) -> poly_simplify O ts ctx = inr e ->
+  e = ValueErr \/ e = OracleMiss.
+Proof. exact simplify_errors_only_wfl. Qed.
 Print Assumptions C07_errors_only.
 
 (* non-vacuity: the definitions run on a concrete input with a recorded LP table *)
